@@ -125,7 +125,8 @@ TEMPLATE_RULE = "template stream: (input template, output template) pairs of 0-4
 PROPS.update({
     "C03": {"streams": [{"name": "template"}], "rule": TEMPLATE_RULE, "trusted_base": TB_TEMPLATE,
             "assumptions": ["order oracle judged for one column list shared by both templates (as jl builds them) or no input template"]},
-    "C04": {"streams": [{"name": "template"}], "rule": TEMPLATE_RULE, "trusted_base": TB_TEMPLATE, "assumptions": []},
+    "C04": {"streams": [{"name": "template", "zones": ["UTC", "Pacific/Kiritimati", "Pacific/Pago_Pago", "America/St_Johns", "Europe/Paris"], "zones_quick": ["UTC", "Pacific/Kiritimati"]}],
+            "rule": TEMPLATE_RULE + "; run under UTC and under zones far east / far west of it (a date-time is rendered in the process zone: the year that counts is the one written)", "trusted_base": TB_TEMPLATE, "assumptions": []},
     "C05": {"streams": [{"name": "template", "zones": ZONES, "zones_quick": ["UTC", "America/St_Johns"]}], "rule": TEMPLATE_RULE + "; run under several process time zones", "trusted_base": TB_TEMPLATE,
             "assumptions": ["strings holding ill-formed UTF-8 (written as \\ufffd escapes) are outside the domain"]},
     "C13": {"streams": [{"name": "template"}], "rule": TEMPLATE_RULE, "trusted_base": TB_TEMPLATE,
